@@ -253,9 +253,10 @@ const header = "From Coq Require Import List NArith Strings.Byte.\nImport ListNo
 
 func main() {
 	cfg := hx.Parse()
-	w := hx.NewWriter(cfg, header, "hcase", "handshake_failures", 500)
-	w.Rule = "a case = (constants of the real code, input, implementation result): either one real side (client or server: magic handshake then version handshake) fed crafted bytes then EOF, with everything it sent and its result; or both real sides through a relay with one fault per direction, with both results. distinct = distinct Coq terms; non-trivial = the input differs from the intact expected 15 bytes / a fault is present"
 	k := observeConsts()
+	// the constants of the real code are written into every case file as K
+	w := hx.NewWriter(cfg, header+"\nDefinition K : hconsts := "+k.coq()+".", "hcase", "handshake_failures", 160)
+	w.Rule = "a case = (constants of the real code, input, implementation result): either one real side (client or server: magic handshake then version handshake) fed crafted bytes then EOF, with everything it sent and its result; or both real sides through a relay with one fault per direction, with both results. distinct = distinct Coq terms; non-trivial = the input differs from the intact expected 15 bytes / a fault is present"
 	expC := append(append([]byte(nil), k.smagic...), beVersion(k.ver)...) // what the client expects
 	expS := append(append([]byte(nil), k.cmagic...), beVersion(k.ver)...) // what the server expects
 
@@ -277,12 +278,12 @@ func main() {
 					code = runServer(s)
 					exp = expS
 				}
-				coq = fmt.Sprintf("HSide %s %d %s %s %d", k.coq(), c.Side, hx.NatList(c.Inp), hx.Bytes(s.sent), code)
+				coq = fmt.Sprintf("HSide K %d %s %s %d", c.Side, hx.NatList(c.Inp), hx.Bytes(s.sent), code)
 				nt = string(toBytes(c.Inp)) != string(exp)
 				tags = append(tags, fmt.Sprintf("side:%d", c.Side), fmt.Sprintf("result:%d", code))
 			case "joint":
 				rc, rs := runJoint(c.Fsc, c.Fcs)
-				coq = fmt.Sprintf("HJoint %s %s %s %d %d", k.coq(), c.Fsc.coq(), c.Fcs.coq(), rc, rs)
+				coq = fmt.Sprintf("HJoint K %s %s %d %d", c.Fsc.coq(), c.Fcs.coq(), rc, rs)
 				nt = c.Fsc.K != "" || c.Fcs.K != ""
 				tags = append(tags, "joint", fmt.Sprintf("results:%d/%d", rc, rs))
 				if c.Fsc.effective(expC) || c.Fcs.effective(expS) {
